@@ -619,7 +619,10 @@ def evaluate__sort(self: XPathFunction, context: ta.ContextType = None) -> ta.Va
             collation = self.parser.default_collation
 
     if len(self) == 3:
-        func = self.get_argument(context, index=2, required=True, cls=XPathFunction)
+        # A function item passed by a dynamic call (sort#3, fn:apply) is the argument token itself
+        func = self[2][1] if self[2].symbol == ':' else self[2]
+        if not isinstance(func, XPathFunction):
+            func = self.get_argument(context, index=2, required=True, cls=XPathFunction)
         key_function = get_key_function(
             collation, key_func=lambda x: func(x, context=context), token=self
         )
